@@ -4,6 +4,8 @@ package main
 
 import (
 	"fmt"
+	"go/ast"
+	"os"
 	"go/constant"
 	"go/token"
 	"go/types"
@@ -287,41 +289,87 @@ func (env *SpecEnv) ident(name string) *Value {
 	return nil
 }
 
-// resolveGoVar finds the SSA value of source variable `name` visible at the start of block at.
+// resolveGoVar finds the value of source variable `name` at the start of block `at`: among the
+// SSA values that go/ssa associates with the variable (debug references, phis and allocs carrying
+// its name) the one defined latest on the dominator path to `at` is the reaching definition.
 func (x *Exec) resolveGoVar(fr *Frame, at *ssa.BasicBlock, name string, st *State) *Value {
-	// phis at `at` and values in dominating blocks
-	for b := at; b != nil; b = b.Idom() {
-		instrs := b.Instrs
-		// in the block itself only phis are visible (we evaluate at its start); in dominators, everything
-		for i := len(instrs) - 1; i >= 0; i-- {
-			in := instrs[i]
-			if b == at {
-				if _, isPhi := in.(*ssa.Phi); !isPhi {
-					continue
+	type cand struct {
+		v      ssa.Value
+		isAddr bool
+		depth  int
+		idx    int
+	}
+	depthOf := func(b *ssa.BasicBlock) int {
+		d := 0
+		for ; b != nil; b = b.Idom() {
+			d++
+		}
+		return d
+	}
+	var best *cand
+	consider := func(v ssa.Value, isAddr bool) {
+		var blk *ssa.BasicBlock
+		idx := -1
+		switch iv := v.(type) {
+		case *ssa.Const:
+			return // zero value recorded at the declaration; never the reaching definition we want
+		case ssa.Instruction:
+			blk = iv.Block()
+			for i, in := range blk.Instrs {
+				if in == iv {
+					idx = i
 				}
 			}
+		case *ssa.Parameter, *ssa.FreeVar:
+			blk = nil
+		default:
+			return
+		}
+		if blk != nil {
+			if blk == at {
+				if _, isPhi := v.(*ssa.Phi); !isPhi {
+					return
+				}
+			} else if !blk.Dominates(at) {
+				return
+			}
+		}
+		c := &cand{v: v, isAddr: isAddr, idx: idx}
+		if blk != nil {
+			c.depth = depthOf(blk)
+		}
+		if best == nil || c.depth > best.depth || (c.depth == best.depth && c.idx > best.idx) {
+			best = c
+		}
+	}
+	for _, b := range fr.fn.Blocks {
+		for _, in := range b.Instrs {
 			switch in := in.(type) {
 			case *ssa.Phi:
 				if in.Comment == name {
-					return x.val(fr, in)
+					consider(in, false)
 				}
 			case *ssa.DebugRef:
-				if id, ok := in.Expr.(interface{ String() string }); ok && debugRefName(in) == name {
-					_ = id
-					v := x.val(fr, in.X)
-					if in.IsAddr {
-						if v.K == KPtr {
-							return x.load(st, v.P, in.X.Type().(*types.Pointer).Elem())
-						}
+				if debugRefName(in) == name {
+					if _, isIdent := in.Expr.(*ast.Ident); isIdent {
+						consider(in.X, in.IsAddr)
 					}
-					return v
 				}
 			case *ssa.Alloc:
 				if in.Comment == name {
-					if v, ok := fr.regs[in]; ok && v.K == KPtr {
-						return x.load(st, v.P, in.Type().(*types.Pointer).Elem())
-					}
+					consider(in, true)
 				}
+			}
+		}
+	}
+	if best != nil {
+		if _, isParam := best.v.(*ssa.Parameter); !isParam {
+			if _, isFV := best.v.(*ssa.FreeVar); !isFV {
+				v := x.val(fr, best.v)
+				if best.isAddr && v.K == KPtr {
+					return x.load(st, v.P, best.v.Type().(*types.Pointer).Elem())
+				}
+				return v
 			}
 		}
 	}
@@ -382,7 +430,10 @@ func (env *SpecEnv) binary(e *Expr) *Value {
 			specFail("'in' needs a map: %s", e.Args[1])
 		}
 		k = env.keyFor(k, m.T)
-		return scalar(tBool, And(Neq(m.Term, x.null()), x.mapHas(env.cur, m.T, m.Term, k)))
+		if os.Getenv("GVC_DEBUG") != "" {
+			fmt.Fprintf(os.Stderr, "DEBUG in: map=%s key=%s has=%s\n", m.Term, leafTerms(k)[0], trunc(x.mapHas(env.cur, m.T, m.Term, k).String(), 300))
+		}
+		return scalar(tBool, x.mapHas(env.cur, m.T, m.Term, k))
 	}
 	a, b := env.eval(e.Args[0]), env.eval(e.Args[1])
 	switch e.Name {
@@ -591,6 +642,8 @@ func (env *SpecEnv) call(e *Expr) *Value {
 			return scalar(tInt, Ite(Eq(v.Term, x.null()), IntLit(0), x.mapLen(env.cur, v.T, v.Term)))
 		}
 		specFail("len of %s", args[0])
+	case "jhas", "jok", "jfield", "jstr", "jint", "jbool", "jdecoded", "jstrs", "jmapint":
+		return env.specJSON(name, args)
 	case "hasPrefix":
 		return scalar(tBool, x.hasPrefixTerm(env.eval(args[0]).Term, env.eval(args[1]).Term))
 	case "hasSuffix":
